@@ -305,10 +305,20 @@ func (x *runner) runSess(c sessCase) {
 	estTo, estFrom := local, remote
 	drift := false
 	emptyTo := false // an accepted header carried to=''
+	type roundAddr struct {
+		acc, emptyBefore       bool
+		bTo, bFrom, aTo, aFrom jid.JID // established before / after this round
+	}
+	ra := make([]roundAddr, n)
+	for k := range ra {
+		ra[k].bTo, ra[k].bFrom = estTo, estFrom
+	}
 	for k := 0; k < n && k < roundsRun; k++ {
+		ra[k].bTo, ra[k].bFrom, ra[k].emptyBefore = estTo, estFrom, emptyTo
 		if !accepted(k) {
 			break
 		}
+		ra[k].acc = true
 		t, _, ok := firstStart(hdrs[k])
 		if !ok {
 			x.res.Fail("C12/session/accepted-garbage", "a round was accepted although no header was presented", c)
@@ -320,11 +330,16 @@ func (x *runner) runSess(c sessCase) {
 			if a.Space == "" && a.Local == "to" {
 				emptyTo = a.Val == ""
 			}
-			if a.Space == "" && a.Val != "" && (a.Local == "to" || a.Local == "from") {
-				j, perr := jid.Parse(a.Val)
-				if perr != nil {
-					x.res.Fail("C12/session/accepted-invalid-address", "a header with an invalid address was accepted", c)
-					continue
+			if a.Space == "" && (a.Local == "to" || a.Local == "from") {
+				// (the last attribute of a name counts; an empty one is no address)
+				var j jid.JID
+				if a.Val != "" {
+					var perr error
+					j, perr = jid.Parse(a.Val)
+					if perr != nil {
+						x.res.Fail("C12/session/accepted-invalid-address", "a header with an invalid address was accepted", c)
+						continue
+					}
 				}
 				if a.Local == "to" {
 					hTo = j
@@ -350,6 +365,7 @@ func (x *runner) runSess(c sessCase) {
 		if !hFrom.Equal(zero) {
 			estFrom = hFrom
 		}
+		ra[k].aTo, ra[k].aFrom = estTo, estFrom
 	}
 	if s != nil && err == nil && !drift {
 		if !c.Recv && emptyTo && s.LocalAddr().Equal(jid.JID{}) && !estTo.Equal(jid.JID{}) && s.RemoteAddr().Equal(estFrom) {
@@ -365,13 +381,69 @@ func (x *runner) runSess(c sessCase) {
 		if len(w) == 0 {
 			continue
 		}
-		t, _, ok := firstStart(w)
+		t, sc, ok := firstStart(w)
 		if !ok {
 			wellFormed = false
 			continue
 		}
-		_ = k
-		_ = t
+		if drift || k >= n {
+			continue
+		}
+		// the receiving side answers an accepted header with the peer's addresses
+		// swapped and a fresh id; the initiating side opens with the established
+		// addresses and no id
+		var wantTo, wantFrom jid.JID
+		if c.Recv {
+			if !ra[k].acc {
+				x.res.Fail("C12/session/header/recv/answered-refused", "a header that was refused was answered with a stream header", c)
+				continue
+			}
+			wantTo, wantFrom = ra[k].aFrom, ra[k].aTo
+		} else {
+			wantTo, wantFrom = ra[k].bFrom, ra[k].bTo
+		}
+		bad := func(field, msg string) {
+			x.res.Fail("C12/session/header/"+role+"/"+field, fmt.Sprintf("stream header %d printed by the session: %s: %s", k+1, msg, w), c)
+		}
+		wantName := [2]string{nsStream, "stream"}
+		if c.WS {
+			wantName = [2]string{nsWS, "open"}
+		}
+		if t.Space != wantName[0] || t.Local != wantName[1] || sc != c.WS {
+			bad("name", "not the stream-open element of the framing in use")
+		}
+		if got, _ := attrOf(t, "", "to"); got != wantTo.String() {
+			bad("to", fmt.Sprintf("to=%q, the peer's address is %q", got, wantTo))
+		}
+		if got, _ := attrOf(t, "", "from"); got != wantFrom.String() && !(!c.Recv && ra[k].emptyBefore) {
+			bad("from", fmt.Sprintf("from=%q, our address is %q", got, wantFrom))
+		}
+		if got, _ := attrOf(t, "", "version"); got != "1.0" {
+			bad("version", "version is "+got)
+		}
+		wantNS := nsClient
+		if c.S2S {
+			wantNS = nsServer
+		}
+		if got, _ := attrOf(t, "", "xmlns"); !c.WS && got != wantNS {
+			bad("xmlns", "content name space is "+got)
+		}
+		if got, _ := attrOf(t, nsXML, "lang"); xmlClean(lang) && got != lang {
+			bad("lang", fmt.Sprintf("xml:lang=%q, configured %q", got, lang))
+		}
+		id, hasID := attrOf(t, "", "id")
+		if c.Recv {
+			if id == "" {
+				bad("id", "the receiving side sent no stream id")
+			}
+			for kk := 0; kk < k && kk < len(rids); kk++ {
+				if rids[kk] == id && id != "" {
+					bad("id", "stream id reused after a restart")
+				}
+			}
+		} else if hasID {
+			bad("id", "the initiating side sent a stream id")
+		}
 	}
 	if !wellFormed {
 		cl := "plain"
